@@ -485,8 +485,10 @@ func (h *hist) nextStep() *step {
 					}
 				}
 				sort.Strings(cands)
-				if c := cands[rnd.Intn(len(cands))]; !nameTaken(s, c) {
+				// never twice in one database: constraint names are derived from the table name and stay with a renamed table
+				if c := cands[rnd.Intn(len(cands))]; !nameTaken(s, c) && !h.oldNames[sn+"."+c] {
 					name = c
+					h.oldNames[sn+"."+c] = true
 				}
 			}
 			nt := h.plainTable(s, name)
